@@ -159,6 +159,19 @@ def _ob_sheets(k):
     return ob
 
 
+def ob_sheets_many(h):
+    """Fifteen requests whose first 31 characters coincide (two-digit disambiguation suffixes)."""
+    base = h.choice("base", ["A" * 40, "Kraft Pulp Mill - Recovery Boiler Line 1 - Direct Integration (Shifted)", "B" * 31, "C" * 29 + ":x"])
+    used, handed = set(), []
+    for step in range(15):
+        got = ex._unique_sheet_name(base if step % 2 == 0 else base + " (Real)", used)
+        h.check("at_most_31_characters", len(got) <= 31)
+        h.check("free_of_forbidden_characters", not (set(got) & FORBIDDEN))
+        h.check("not_handed_out_before", got not in handed)
+        handed.append(got)
+    h.check("all_recorded", used == set(handed))
+
+
 def ob_csv_channel(h):
     """One concrete problem: dictionary channel vs CSV bundle written from it (installed pandas)."""
     from OpenPinch.main import pinch_analysis_service
@@ -200,6 +213,7 @@ def obligations():
                    stubs=("get_problem_from_excel", "get_problem_from_csv")),
         Obligation("C16.sheets.b", _ob_sheets(3), kind="bounded", bound=f"every history of 3 requests over a pool of {len(NAME_POOL)} adversarial names (exhaustive)",
                    functions=[ex._unique_sheet_name, ex._sanitize_sheet_name], max_paths=100000),
+        Obligation("C16.sheets.many.b", ob_sheets_many, kind="bounded", bound="15 successive requests sharing their first 31 characters, four base names", functions=[ex._unique_sheet_name]),
         Obligation("C16.csv_channel.b", ob_csv_channel, kind="bounded", bound="one concrete three-stream problem (smoke obligation on the installed pandas)",
                    functions=[pp.PinchProblem.load]),
     ]
